@@ -2,5 +2,6 @@ SPECIFICATION TraceSpec
 CONSTANTS
   MapVars = {"m", "n"}
   KeysCapturedByValue = TRUE
+  KeysCapturedDeep = TRUE
 INVARIANTS TInvDict
 CHECK_DEADLOCK FALSE
